@@ -133,6 +133,10 @@ def narrow_arith_rule(chk, src):
                 return R().visit(copy.deepcopy(e))
             for b in ast.walk(fi.node):
                 if isinstance(b, ast.BinOp) and isinstance(b.op, (ast.Mult, ast.Add, ast.Sub, ast.LShift, ast.Pow)):
+                    def is_list(x):
+                        return isinstance(x, (ast.List, ast.Tuple, ast.ListComp)) or (isinstance(x, ast.Call) and unparse(x.func) in ("list", "tuple"))
+                    if isinstance(b.op, ast.Add) and (is_list(b.left) or is_list(b.right)):
+                        continue      # concatenation of Python lists, not arithmetic on entries
                     l, r = strip_meta(b.left), strip_meta(b.right)
                     if value_use(l) or value_use(r):
                         n += 1
